@@ -291,6 +291,16 @@ func c10Run(w *core.W) {
 			}
 			return true
 		}
+		// one operand extended in several different ways, all results kept
+		for _, a := range opsA {
+			for _, b := range opsA {
+				st := append(append([]string{}, pre...), "l = "+a+" + "+b, "m = "+a+" + [6]", "k = "+a+" + "+b+" + [7]", "j = "+a+" + [8, 9]", "[l, m, k, j]", obs,
+					"h = () -> {\n  l = "+a+" + "+b+"\n  m = "+a+" + [6]\n  [l, m]\n}", "[h(), h()]", obs)
+				if !c10Directed(w, st) {
+					return
+				}
+			}
+		}
 		for _, a := range opsA {
 			for _, b := range opsA {
 				for _, c := range opsA {
